@@ -289,6 +289,30 @@ func GenProperty(w *Writer, prop string, t Tier, seed uint64) error {
 					}
 					return Call{Base: Ctx{}, Name: "nosuchfn"}, 0
 				}
+				if r.Chance(1, 3) {
+					// an unprefixed name test must not match a node of that local name in a namespace
+					// (elements and attributes alike), a prefixed one must match by URI
+					var named []int
+					for i, k := range d.Dump.Kinds {
+						if k == KElem || k == KAttr {
+							named = append(named, i)
+						}
+					}
+					if len(named) > 0 {
+						j := Pick(r, named)
+						ev := d.Dump.Cursors[j].Node().(interface{ Local() string })
+						ax := "child"
+						if d.Dump.Kinds[j] == KAttr {
+							ax = "attribute"
+						}
+						all := Step{Base: Root{}, Axis: "descendant-or-self", Test: Test{Kind: "node"}}
+						st := Step{Base: all, Axis: ax, Test: Test{Kind: Pick(r, []string{"name", "name", "localany"}), A: ev.Local()}}
+						if r.Chance(1, 2) {
+							return Call{Base: Ctx{}, Name: "count", Args: []Expr{st}}, 0
+						}
+						return st, 0
+					}
+				}
 				g.Cfg.Preds = 2
 				return g.NodeSet(2, false), g.Start
 			}},
